@@ -56,6 +56,8 @@ pub mod conv1 {
         #[savefile_versions = "1.."]
         pub small: i32,
         pub tail: u16,
+        #[savefile_versions = "1.."]
+        pub level: u16,
     }
     #[derive(Savefile, Debug, PartialEq, Clone)]
     #[repr(C)]
@@ -91,6 +93,10 @@ pub mod conv2 {
         #[savefile_versions = "2.."]
         #[savefile_default_val = "77"]
         pub added: u32,
+        // added at version 1 (implicit Default for version-0 files), converted at version 2
+        #[savefile_versions_as = "1..1:u16"]
+        #[savefile_versions = "2.."]
+        pub level: u32,
     }
 }
 
@@ -102,24 +108,24 @@ fn c0(i: usize) -> conv0::Conv {
     }
 }
 fn up01(x: &conv0::Conv) -> conv1::Conv {
-    conv1::Conv { name: x.name.clone(), phone: x.phone.to_string(), speed: x.speed as u16, flag: x.flag as u8, small: x.small as i32, tail: x.tail }
+    conv1::Conv { name: x.name.clone(), phone: x.phone.to_string(), speed: x.speed as u16, flag: x.flag as u8, small: x.small as i32, tail: x.tail, level: 0 }
 }
 fn c1(i: usize) -> conv1::Conv {
     match i {
         0 => up01(&c0(0)),
-        1 => conv1::Conv { name: "n".into(), phone: "+46 (0)70-12".into(), speed: 65535, flag: 200, small: i32::MIN, tail: 9 },
-        _ => conv1::Conv { name: "x".repeat(70), phone: "".into(), speed: 256, flag: 0, small: 70000, tail: 65535 },
+        1 => conv1::Conv { name: "n".into(), phone: "+46 (0)70-12".into(), speed: 65535, flag: 200, small: i32::MIN, tail: 9, level: 65535 },
+        _ => conv1::Conv { name: "x".repeat(70), phone: "".into(), speed: 256, flag: 0, small: 70000, tail: 65535, level: 3 },
     }
 }
 fn up12(x: &conv1::Conv) -> conv2::Conv {
     let mut b = x.phone.clone().into_bytes();
     b.reverse();
-    conv2::Conv { name: x.name.clone(), phone: b, speed: x.speed as u64, flag: x.flag, small: x.small, tail: x.tail, added: 77 }
+    conv2::Conv { name: x.name.clone(), phone: b, speed: x.speed as u64, flag: x.flag, small: x.small, tail: x.tail, added: 77, level: x.level as u32 }
 }
 fn c2(i: usize) -> conv2::Conv {
     match i {
         0 => up12(&c1(0)),
-        1 => conv2::Conv { name: "q".into(), phone: vec![0, 255, 7], speed: u64::MAX, flag: 1, small: 0, tail: 2, added: 5 },
+        1 => conv2::Conv { name: "q".into(), phone: vec![0, 255, 7], speed: u64::MAX, flag: 1, small: 0, tail: 2, added: 5, level: 4_000_000_000 },
         _ => up12(&c1(2)),
     }
 }
